@@ -15,7 +15,7 @@
 //! Model lines (diffed against lean `Ops/SchemaSyntax.lean`):
 //!   `(sty print <tyjson>)`   reply `(toks …)`     — the printer of fmt.rs on every type expression of the fragment
 //!   `(sty parse (toks …))`   reply `(ok <tyjson>)|(err)` — the Cedar type grammar + to_json_schema.rs
-//!   `(sty resolve "ns" (commons …) (entities …) entity|common|either "name")`
+//!   `(sty resolve "ns" (commons …) (entities …) (actions "ns"…) entity|common|either "name")`
 //!                            reply `(common "q")|(entity "q")|(builtin "Long")|(undefined)|(shadow)`
 //!     — observed end-to-end: a synthetic JSON schema with the same declared names (each common type a record with
 //!       one marker attribute) and a probe attribute of the reference under test, loaded by `ValidatorSchema`.
@@ -927,6 +927,7 @@ fn resolve_probe(env: &DeclEnv, ns: &str, kind: &str, name: &str) -> (String, St
     let mut top = Map::new();
     let mut commons: Vec<String> = Vec::new();
     let mut entities: Vec<String> = Vec::new();
+    let mut action_ns: Vec<String> = Vec::new();
     let mut all_ns: Vec<String> = env.ns.keys().cloned().collect();
     if !all_ns.iter().any(|n| n == ns) {
         all_ns.push(ns.to_string());
@@ -949,7 +950,7 @@ fn resolve_probe(env: &DeclEnv, ns: &str, kind: &str, name: &str) -> (String, St
         let mut acts = Map::new();
         if has_actions {
             acts.insert(format!("act in {n}"), json!({}));
-            entities.push(gt::qualify(n, "Action"));
+            action_ns.push(n.clone());
         }
         if n == ns {
             let t = match kind {
@@ -966,10 +967,11 @@ fn resolve_probe(env: &DeclEnv, ns: &str, kind: &str, name: &str) -> (String, St
     entities.sort();
     entities.dedup();
     let req = format!(
-        "(sty resolve {} (commons{}) (entities{}) {kind} {})",
+        "(sty resolve {} (commons{}) (entities{}) (actions{}) {kind} {})",
         qs(ns),
         commons.iter().map(|c| format!(" {}", qs(c))).collect::<String>(),
         entities.iter().map(|c| format!(" {}", qs(c))).collect::<String>(),
+        action_ns.iter().map(|c| format!(" {}", qs(c))).collect::<String>(),
         qs(name)
     );
     let j = J::Object(top);
@@ -1235,7 +1237,7 @@ fn probes(out: &mut Out, r: &mut Rng) {
     for t in [
         "Long", "Set<Long>", "Set<Set<A::B::C>>", "{}", "{a: Long}", "{a: Long,}", "{a?: Long, \"b c\": {x: Set<String>}}", "{\"if\": Long}", "{if: Long}", "A::if", "Set", "Set<Set>", "{Set: Set}",
         "__cedar::Long", "{__cedar: Long}", "__cedar", "{,}", "{a: Long,,}", "{a Long}", "Set<>", "Set<Long", "A::", "::A", "{a: Long b: Long}", "{a??: Long}", "{\"a\"?: Long}", "{a: }", "",
-        "{true: Long}", "{\"\\u{1F600}\": Long}", "{a: {b: {c: {}}}}", "Set<{a: Long}>", "A :: B", "{in: Long}", "{type: type}", "{entity?: namespace}",
+        "{true: Long}", "{a: Long, a: String}", "{b: Long, a: String, \"b\": Bool}", "{\"\\u{1F600}\": Long}", "{a: {b: {c: {}}}}", "Set<{a: Long}>", "A :: B", "{in: Long}", "{type: type}", "{entity?: namespace}",
     ] {
         emit_parse(out, "probe type text", t);
     }
